@@ -135,9 +135,9 @@ UNIT = dict(
   consts=[
           # dispatch of the std::optional overloads (their lambdas are not lowered): which instantiation of do_try_pop they forward to.
           # 2 = default_to_weak, 1 = do_try_pop<true> (weak, lock-free), 0 = do_try_pop<false> (strong)
-          dict(name='XV_DISPATCH_POP', file=F, regex=r'std::optional<T> pop\(\)\s*\{\s*return do_try_pop<(\w+)>', subst=[('^default_to_weak$', '2'), ('^true$', '1'), ('^false$', '0')]),
-          dict(name='XV_DISPATCH_POP_STRONG', file=F, regex=r'std::optional<T> pop_strong\(\)\s*\{\s*return do_try_pop<(\w+)>', subst=[('^default_to_weak$', '2'), ('^true$', '1'), ('^false$', '0')]),
-          dict(name='XV_DISPATCH_POP_WEAK', file=F, regex=r'std::optional<T> pop_weak\(\)\s*\{\s*return do_try_pop<(\w+)>', subst=[('^default_to_weak$', '2'), ('^true$', '1'), ('^false$', '0')]),
+          dict(name='XV_DISPATCH_POP', file=F, regex=r'std::optional<T> pop\(\)\s*\{\s*return \w+<(\w+)>', subst=[('^default_to_weak$', '2'), ('^true$', '1'), ('^false$', '0')]),
+          dict(name='XV_DISPATCH_POP_STRONG', file=F, regex=r'std::optional<T> pop_strong\(\)\s*\{\s*return \w+<(\w+)>', subst=[('^default_to_weak$', '2'), ('^true$', '1'), ('^false$', '0')]),
+          dict(name='XV_DISPATCH_POP_WEAK', file=F, regex=r'std::optional<T> pop_weak\(\)\s*\{\s*return \w+<(\w+)>', subst=[('^default_to_weak$', '2'), ('^true$', '1'), ('^false$', '0')]),
           dict(name='XV_DEFAULT_TO_WEAK', file=F, regex=r'parameter::value_param_t<bool, policy::default_to_weak, (\w+), Policies\.\.\.>::value', subst=[('false', '0'), ('true', '1')])],
   sources=[
     dict(id='assign_value', file=F, sig=r'void assign_value\(storage_t& v, T&& source\)',
